@@ -473,6 +473,22 @@ def gen_periodic(rng):
     return m, setup, sorted(cancels), rng.randint(15, 40)
 
 
+def gen_periodic_rearm(rng):
+    """C07 family: a periodic series armed by the model on itself (input 1, period p); every occurrence schedules a
+    one-shot on input 0 due exactly at the NEXT occurrence (relative deadline p): same origin, same time - the
+    occurrence was re-armed when the previous one was pulled, i.e. before the one-shot was scheduled, so at every such
+    time the occurrence must run first.  Returns a 'seq' case with meta for o_rearm_order."""
+    p = rng.choice([2, 3, 5, 10])
+    d = rng.randint(1, 9)
+    m = {"cap": rng.choice([1, 2, 16]),
+         "handlers": [[], [("sch", ("r", p), 0, ("ip", 500), None, None)], [], [("sch", ("r", d), 1, ("c", 40), rng.choice([None, 0]), p)]],
+         "outs": []}
+    horizon = d + p * rng.randint(2, 6) + rng.randint(0, p - 1)
+    cmds = [("pe", 0, 3, 1)] + partition_cmds(rng, horizon, [], rng.choice(["big", "unit", "mixed"]))
+    return {"models": [m], "sinks": [], "mode": "seq", "tags": {"periodic", "rearm"}, "t0": 0, "clock": [], "cmds": cmds,
+            "sources": [], "meta": {"first": d, "period": p}}
+
+
 def gen_periodic_model(rng):
     """C10 family, model-origin variant: one handler (input 3, triggered at the start time by process_event) arms 1-2
     periodic series on the model itself with relative first deadlines; single origin, so the order is fixed.
@@ -718,6 +734,31 @@ def gen_panic_inflight(rng):
     for _ in range(rng.randint(1, 2)):
         val += 1; cmds.append(rng.choice([("pe", 1, 0, val), ("st",), ("su", ("a", 100))]))
     case["cmds"] = cmds
+    return case
+
+
+def gen_fail_while_busy(rng):
+    """C19 family: a step fails (a model panics, or sends to a dropped mailbox) while another model, on another
+    worker thread, is still inside a handler (busy for some tens of milliseconds); the simulation is dropped at the
+    end of the bench: the drop must return and every model must be dropped."""
+    kind = rng.choice(["panic", "panic", "norecip"])
+    fan = {"cap": 4, "handlers": [[("snd", 0, "in")], [], []], "repliers": [],
+           "outs": [[("all", 0, ("m", 1, 0)), ("all", 0, ("m", 2, 0))]], "reqs": [], "init": []}
+    slow = {"cap": 4, "handlers": [[("slp", rng.choice([20, 40, 80])), ("snd", 0, "in")], [], []], "repliers": [],
+            "outs": [[("all", 0, ("s", 0))]], "reqs": [], "init": []}
+    if kind == "panic":
+        bad = {"cap": 4, "handlers": [[("slp", 5), ("pan", rng.randint(1, 9))], [], []], "repliers": [], "outs": [], "reqs": [], "init": []}
+        models = [fan, slow, bad]
+    else:
+        bad = {"cap": 4, "handlers": [[("slp", 5), ("snd", 0, "in")], [], []], "repliers": [],
+               "outs": [[("all", 0, ("m", 3, 0))]], "reqs": [], "init": []}
+        models = [fan, slow, bad, {"cap": 2, "place": 2, "handlers": [[], [], []], "repliers": [], "outs": [], "reqs": [], "init": []}]
+    # which of the two is reached first by the broadcast is free
+    if rng.random() < 0.5:
+        fan["outs"][0].reverse()
+    case = {"models": models, "sinks": [("buf", 64)], "mode": "multiset", "tags": {"fault", "busy", kind}, "threads": 2, "t0": 0,
+            "clock": [], "sources": []}
+    case["cmds"] = [("pe", 0, 0, 1)] + ([("st",)] if rng.random() < 0.5 else [])
     return case
 
 
